@@ -110,7 +110,7 @@ func init() {
 			if tier == "thorough" {
 				return 1500
 			}
-			return 100
+			return 300
 		},
 		Body: func(r *core.Run, x *explore.X) {
 			f := GenForest(x, r.Tier == "thorough")
